@@ -179,6 +179,7 @@ def replay_lifecycle_case(case):
             return s
 
         f = None
+        gen_it = None      # a chunk generator started while the file was open
         wr = None          # ONE writer object, entered once per writer_with step
         tracker = OpenTracker(tmp, interrupt=(cfg["fault"] == "interrupt"))
         tracker.__enter__()
@@ -202,6 +203,20 @@ def replay_lifecycle_case(case):
                     f.close()
                 elif op == "exit_with":
                     f.__exit__(None, None, None)
+                elif op == "stream_start":
+                    gen_it = iter(f["g"]["c"].data_chunks() if o["kind"] == "chan" else f.data_chunks())
+                    for _ in range(o["taken"]):
+                        next(gen_it)
+                elif op == "stream_next":
+                    try:
+                        got = next(gen_it)
+                    except StopIteration:
+                        got = None
+                    if got is not None or True:
+                        # reached only when no error was raised: a chunk (or a silent end) after close()
+                        pass
+                    if got is None:
+                        raise_marker = "ended"       # noqa: the stream ended silently although chunks remain
                 elif op == "late_write":
                     wr.write_segment([ChannelObject("g", "c", np.arange(2, dtype=np.int32))])
                 elif op == "writer_with":
